@@ -1003,3 +1003,23 @@ impl Samp for i32 {
         *self as u32 as u64
     }
 }
+
+/// Every f32 half of a sample that is a NaN is replaced by the canonical quiet NaN: NaN
+/// payloads and signs are not part of any oracle (the compiler may commute the operands of
+/// a floating-point operation, e.g. between a vectorised loop body and its scalar tail).
+pub fn canon_nan(v: &[u64]) -> Vec<u64> {
+    v.iter()
+        .map(|x| {
+            let lo = *x as u32;
+            let hi = (*x >> 32) as u32;
+            let c = |b: u32| if f32::from_bits(b).is_nan() { 0x7fc0_0000u32 } else { b };
+            ((c(hi) as u64) << 32) | c(lo) as u64
+        })
+        .collect()
+}
+pub fn canon_port(p: &PortData) -> PortData {
+    match p {
+        PortData::Samples(v) => PortData::Samples(canon_nan(v)),
+        PortData::Packets(v) => PortData::Packets(v.iter().map(|x| canon_nan(x)).collect()),
+    }
+}
